@@ -5,7 +5,12 @@ use crate::core::*;
 use crate::engine::*;
 use crate::gen;
 use crate::model::*;
+use crate::graphcase::ng_from_graph;
+use crate::oracle::*;
 use crate::props::c01::{classify, run_ctor};
+use crate::props::c05::compare_node_map;
+use graphrs::algorithms::centrality::{betweenness::betweenness_centrality, closeness::closeness_centrality};
+use graphrs::algorithms::shortest_path::dijkstra;
 use proptest::strategy::BoxedStrategy;
 
 pub struct C03;
@@ -16,7 +21,7 @@ impl Prop for C03 {
         "C03"
     }
     fn rule(&self) -> String {
-        "C01 histories restricted to uniformly weighted (positive dyadic k/4) or uniformly unweighted edges, all 96 specs (exhaustive block of length <= 3 incl. a lighter and a heavier duplicate, random block of length <= 24/60). After every step (hook) each traversal list must hold exactly the stored neighbours with the bit-exact minimum stored weight of the pair. Non-trivial = the history inserted a second edge on an occupied pair with a different weight and the final graph has >= 1 edge between distinct nodes; distinct = distinct serialised history.".into()
+        "C01 histories restricted to uniformly weighted (positive dyadic k/4) or uniformly unweighted edges, all 96 specs (exhaustive block of length <= 3 incl. a lighter and a heavier duplicate, random block of length <= 24/60). After every step (hook) each traversal list must hold exactly the stored neighbours with the bit-exact minimum stored weight of the pair; at the end of the history (black box) single_source from every node, betweenness and closeness must equal Floyd-Warshall / brute-force oracles evaluated on get_all_edges() alone. Non-trivial = the history inserted a second edge on an occupied pair with a different weight and the final graph has >= 1 edge between distinct nodes; distinct = distinct serialised history.".into()
     }
     fn assumptions(&self) -> Vec<String> {
         vec!["histories are uniformly weighted or uniformly unweighted, as the property states".into(), "the snapshot hook copies successors_vec / predecessors_vec faithfully".into()]
@@ -30,7 +35,7 @@ impl Prop for C03 {
         gen::hist(tier.pick(24, 60), &[1, 1, 1, 2])
     }
     fn random_cases(&self, tier: Tier) -> u32 {
-        tier.pick(30_000, 600_000)
+        tier.pick(150_000, 1_500_000)
     }
     fn check(&self, case: &HistCase) -> Outcome {
         let mut out = Outcome::new();
@@ -38,7 +43,12 @@ impl Prop for C03 {
             return out;
         };
         out.failures.clear();
-        traversal_check(&g, &m, &mut out);
+        // VERIF_C03_BLACKBOX_ONLY=1 switches the white-box channel off (used to show that the
+        // black-box channel alone detects stale weights)
+        let whitebox = std::env::var("VERIF_C03_BLACKBOX_ONLY").map_or(true, |v| v != "1");
+        if whitebox {
+            traversal_check(&g, &m, &mut out);
+        }
         for op in &case.ops {
             let (mr, gr) = apply(op, case.wmode, &mut m, &mut g);
             out.api_calls += 1;
@@ -46,9 +56,59 @@ impl Prop for C03 {
                 out.class("diverged_from_model");
                 return out;
             }
-            traversal_check(&g, &m, &mut out);
+            if whitebox {
+                traversal_check(&g, &m, &mut out);
+            }
             if !out.failures.is_empty() {
                 break;
+            }
+        }
+        // black-box channel: weighted (or hop-count) distances and centralities must equal those
+        // computed from get_all_edges() alone
+        if out.failures.is_empty() && !m.nodes.is_empty() {
+            let ng = ng_from_graph(&g);
+            let weighted = ng.weighted;
+            let w = weight_matrix(&ng, weighted);
+            let d = floyd(&w);
+            let mode = if weighted { "weighted" } else { "hops" };
+            for s in 0..ng.n {
+                out.api_calls += 1;
+                match guard(|| dijkstra::single_source(&g, weighted, ng.names[s].clone(), None, None, false, false)) {
+                    Err(p) => out.fail(format!("single_source[{}]/panic/{}", mode, panic_class(&p)), p),
+                    Ok(Err(e)) => out.fail(format!("single_source[{}]/error/{}", mode, kind_of(&e)), e.message.clone()),
+                    Ok(Ok(ans)) => {
+                        for t in 0..ng.n {
+                            let got = ans.get(&ng.names[t]).map(|i| i.distance);
+                            let want = if d[s][t] < INF { Some(d[s][t]) } else { None };
+                            if got != want {
+                                let class = match (got, want) {
+                                    (Some(a), Some(b)) if a < b => "shorter_than_stored_edges_allow",
+                                    (Some(_), Some(_)) => "longer_than_stored_edges_allow",
+                                    (None, Some(_)) => "stored_edge_not_traversed",
+                                    _ => "traversed_edge_not_stored",
+                                };
+                                out.fail(format!("single_source[{}]/ne_oracle_on_get_all_edges/{}", mode, class), format!("d({:?},{:?}) = {:?} but get_all_edges() gives {:?}", ng.names[s], ng.names[t], got, want));
+                                break;
+                            }
+                        }
+                    }
+                }
+            }
+            if out.failures.is_empty() && ng.n <= 6 {
+                let mut want = betweenness_brute(&w);
+                rescale_betweenness(&mut want, ng.n, false, ng.directed);
+                out.api_calls += 2;
+                match guard(|| betweenness_centrality(&g, weighted, false)) {
+                    Err(p) => out.fail(format!("betweenness_centrality[{}]/panic/{}", mode, panic_class(&p)), p),
+                    Ok(Err(e)) => out.fail(format!("betweenness_centrality[{}]/error/{}", mode, kind_of(&e)), e.message.clone()),
+                    Ok(Ok(got)) => compare_node_map(&ng, &got, &want, 1e-9, 1e-12, &format!("betweenness_centrality[{}]/ne_oracle_on_get_all_edges", mode), &mut out),
+                }
+                let wantc = closeness(&d, true);
+                match guard(|| closeness_centrality(&g, weighted, true)) {
+                    Err(p) => out.fail(format!("closeness_centrality[{}]/panic/{}", mode, panic_class(&p)), p),
+                    Ok(Err(e)) => out.fail(format!("closeness_centrality[{}]/error/{}", mode, kind_of(&e)), e.message.clone()),
+                    Ok(Ok(got)) => compare_node_map(&ng, &got, &wantc, 1e-12, 1e-15, &format!("closeness_centrality[{}]/ne_oracle_on_get_all_edges", mode), &mut out),
+                }
             }
         }
         classify(case, &m, &mut out);
